@@ -215,3 +215,18 @@ def run_multi(doms, cond, sel=None):
 
 def same_list_by_identity(a, b):
     return len(a) == len(b) and all(x is y for x, y in zip(a, b))
+
+
+# ------------------------------------------------------------------ flatten / concatenate (C16, C17)
+def run_flatten(dom, with_cond, select_parent, cond=None):
+    """set_of([x?, flatten(x.tags)], cond?) against UNNEST semantics"""
+    with symbolic_mode():
+        x = let(type_=Item, domain=dom)
+        t = flatten(x.tags)
+        sel = ([x] if select_parent else []) + [t]
+        props = [build(cond, [x])] if with_cond else []
+        q = an(set_of(sel, *props))
+    rows = list(q.evaluate())
+    got = sorted((id(r[x]) if select_parent else 0, r[t]) for r in rows)
+    want = sorted((id(o) if select_parent else 0, e) for o in dom if (not with_cond or holds(cond, {0: o})) for e in o.tags)
+    return got, want, q
